@@ -19,54 +19,36 @@
 (* parsed HERE by Serial!Decode; the result must be exactly the fields the *)
 (* implementation holds for P, re-encoding it must give b1 again, and the  *)
 (* fields of Q must equal those of P.                                      *)
-(* Values are compared tag first (Enc.tla convention), so that a constant  *)
-(* decoded as another kind is a clean FALSE, not an evaluation error.      *)
+(* Values are recorded as canonical type-tagged renderings, so that a      *)
+(* constant decoded as another kind is a clean FALSE, never a comparison   *)
+(* of values of different TLA+ types; the format conformance compares      *)
+(* records whose tag field t is inspected first.                            *)
 (***************************************************************************)
 EXTENDS Serial, Json, IOUtils, TLC
 
 Recs == ndJsonDeserialize(IOEnv.VERIF_RECS)
 VARIABLE recno
 
-RECURSIVE VE(_, _)
-SeqVE(s, t) == Len(s) = Len(t) /\ \A n \in 1..Len(s) : VE(s[n], t[n])
-\* object identities are recorded for globals and defaults, not for trace() arguments
-IdEq(a, b) == /\ ("id" \in DOMAIN a) = ("id" \in DOMAIN b)
-              /\ ("id" \in DOMAIN a) => a.id = b.id
-VE(a, b) ==
-  /\ a.t = b.t
-  /\ CASE a.t \in {"none", "nil", "cycle", "deep"} -> TRUE
-       [] a.t \in {"bool", "int", "str", "bytes"} -> a.v = b.v
-       [] a.t = "big"   -> a.neg = b.neg /\ a.m = b.m
-       [] a.t = "float" -> a.s = b.s /\ a.e = b.e /\ a.m = b.m
-       [] a.t \in {"list", "set"} -> IdEq(a, b) /\ SeqVE(a.v, b.v)
-       [] a.t = "tuple" -> SeqVE(a.v, b.v)
-       [] a.t = "dict"  -> /\ IdEq(a, b) /\ Len(a.v) = Len(b.v)
-                           /\ \A n \in 1..Len(a.v) : VE(a.v[n][1], b.v[n][1]) /\ VE(a.v[n][2], b.v[n][2])
-       [] a.t = "struct" -> /\ Len(a.v) = Len(b.v)
-                            /\ \A n \in 1..Len(a.v) : a.v[n][1] = b.v[n][1] /\ VE(a.v[n][2], b.v[n][2])
-       [] a.t = "ref"   -> a.id = b.id
-       [] a.t = "range" -> a.s = b.s /\ a.len = b.len
-       [] a.t = "other" -> a.type = b.type /\ a.s = b.s
-       [] OTHER -> FALSE
+\* Records are compressed by interning: r.tab[c] lists the distinct values that component c
+\* takes in P and Q (one entry when they agree), r.p[c] and r.q[c] are indices.  Side expands.
+ObsComps  == {"ok", "panic", "err", "stack", "printed", "effects", "globals", "steps"}
+MetaComps == {"filename", "loads", "fns"}
+Side(r, x) == [c \in ObsComps \cup MetaComps |-> r.tab[c][x[c]]]
 
-EffEq(e, f) == /\ e.fn = f.fn /\ SeqVE(e.args, f.args) /\ Len(e.kw) = Len(f.kw)
-               /\ \A n \in 1..Len(e.kw) : e.kw[n][1] = f.kw[n][1] /\ VE(e.kw[n][2], f.kw[n][2])
-
-\* first observable component on which the two executions differ ("" if none)
+\* first observable component on which the two executions differ ("" if none).
+\* Values, messages and positions arrive as canonical type-tagged ASCII renderings, so
+\* every comparison is between strings (or booleans / integers) of the same kind.
 ObsDiff(p, q) ==
   IF p.ok # q.ok THEN "ok"
   ELSE IF p.panic # q.panic THEN "panic"
   ELSE IF p.err # q.err THEN "error-text"
   ELSE IF p.stack # q.stack THEN "call-stack"
   ELSE IF p.printed # q.printed THEN "printed"
-  ELSE IF ~(Len(p.effects) = Len(q.effects) /\ \A n \in 1..Len(p.effects) : EffEq(p.effects[n], q.effects[n])) THEN "effects"
-  ELSE IF ~(/\ Len(p.globals) = Len(q.globals)
-            /\ \A n \in 1..Len(p.globals) : p.globals[n][1] = q.globals[n][1] /\ VE(p.globals[n][2], q.globals[n][2])) THEN "globals"
+  ELSE IF p.effects # q.effects THEN "effects"
+  ELSE IF p.globals # q.globals THEN "globals"
   ELSE IF p.steps # q.steps THEN "steps"
   ELSE ""
 
-ParamEq(a, b) == /\ a.name = b.name /\ a.pos = b.pos /\ a.dflt.some = b.dflt.some
-                 /\ a.dflt.some => VE(a.dflt.v, b.dflt.v)
 FnDiff(f, g) ==
   IF f.name # g.name THEN "name"
   ELSE IF f.doc # g.doc THEN "doc"
@@ -75,7 +57,7 @@ FnDiff(f, g) ==
   ELSE IF f.nkwonly # g.nkwonly THEN "numkwonly"
   ELSE IF f.varargs # g.varargs THEN "hasvarargs"
   ELSE IF f.kwargs # g.kwargs THEN "haskwargs"
-  ELSE IF ~(Len(f.params) = Len(g.params) /\ \A n \in 1..Len(f.params) : ParamEq(f.params[n], g.params[n])) THEN "params"
+  ELSE IF f.nlisted # g.nlisted \/ f.params # g.params THEN "params"
   ELSE IF f.freevars # g.freevars THEN "freevars"
   ELSE IF f.postab # g.postab THEN "position-table"
   ELSE ""
@@ -87,10 +69,9 @@ MetaDiff(p, q) ==
        IF bad = {} THEN "" ELSE FnDiff(p.fns[CHOOSE n \in bad : \A m \in bad : n <= m], q.fns[CHOOSE n \in bad : \A m \in bad : n <= m])
 
 \* what the accessors report is consistent with itself
-FnOK(f) == /\ Len(f.params) = f.nparams
+FnOK(f) == /\ f.nlisted = f.nparams
+           /\ f.nkwonly >= 0
            /\ f.nkwonly <= f.nparams - (IF f.varargs THEN 1 ELSE 0) - (IF f.kwargs THEN 1 ELSE 0)
-           /\ Len(f.postab) % 3 = 0
-           /\ f.postab # <<>> => f.postab[1] = 0
 
 (***************************************************************************)
 (* conformance of the file with Serial.tla                                 *)
@@ -101,24 +82,26 @@ StripF(f) == [name |-> f.name, line |-> f.line, col |-> f.col, doc |-> f.doc, co
 StripP(p) == [filename |-> p.filename, loads |-> p.loads, names |-> p.names, consts |-> p.consts, globals |-> p.globals,
               toplevel |-> StripF(p.toplevel), funcs |-> [n \in 1..Len(p.funcs) |-> StripF(p.funcs[n])],
               recursion |-> p.recursion]
+\* r.ftab lists the distinct field records of P and Q (one entry when they agree)
 FormatDiff(r) ==
   LET dec == Decode(r.b1, r.ver) IN
   IF ~dec.ok THEN "spec-decoder-rejects-file"
-  ELSE IF StripP(dec.prog) # r.p.fields THEN "file-differs-from-fields-of-P"
+  ELSE IF StripP(dec.prog) # r.ftab[r.pf] THEN "file-differs-from-fields-of-P"
   ELSE IF Encode(dec.prog, r.ver) # r.b1 THEN "file-not-canonical"
-  ELSE IF r.q.fields # r.p.fields THEN "fields-of-Q-differ"
+  ELSE IF r.ftab[r.qf] # r.ftab[r.pf] THEN "fields-of-Q-differ"
   ELSE ""
 
 Why(r) ==
   IF ~r.decok THEN <<"decode", "rejected">>
-  ELSE IF ObsDiff(r.p, r.q) # "" THEN <<"obs", ObsDiff(r.p, r.q)>>
-  ELSE IF MetaDiff(r.p, r.q) # "" THEN <<"meta", MetaDiff(r.p, r.q)>>
+  ELSE IF ObsDiff(Side(r, r.p), Side(r, r.q)) # "" THEN <<"obs", ObsDiff(Side(r, r.p), Side(r, r.q))>>
+  ELSE IF MetaDiff(Side(r, r.p), Side(r, r.q)) # "" THEN <<"meta", MetaDiff(Side(r, r.p), Side(r, r.q))>>
   ELSE IF ~r.same THEN <<"bytes", "rewrite-differs">>
-  ELSE IF ~(\A n \in 1..Len(r.p.fns) : FnOK(r.p.fns[n])) THEN <<"meta", "inconsistent">>
+  ELSE IF ~(\A n \in 1..Len(Side(r, r.p).fns) : FnOK(Side(r, r.p).fns[n])) THEN <<"meta", "inconsistent">>
   ELSE IF r.hasf /\ FormatDiff(r) # "" THEN <<"format", FormatDiff(r)>>
   ELSE <<"ok", "">>
 
-Good(r) == Why(r)[1] = "ok"
+\* (not Why(r)[1] = "ok": TLC evaluates an operator application under [_] many times over)
+Good(r) == Why(r) = <<"ok", "">>
 
 K == 64
 Init == recno = 0
